@@ -103,13 +103,17 @@ def run_group(item):
     obs, res, ev, tabs = record.execute(base)
     rows0 = record.law_rows(base, res, tabs)
     out = {'gid': gid, 'laws': [], 'api': [], 'splits': []}
-    out['api'].append(record.abstract(base, obs, res, tabs, 0))
+    # wide groups (many rows, many jobs) are judged by the EQ law; the envelope only where EQ does not apply
+    with_api = not base.get('_wide') or (base['api'].split('.')[0] not in EQ_APIS and len(base['R']['rows']) <= 40)
+    if with_api:
+        out['api'].append(record.abstract(base, obs, res, tabs, 0))
     for label, c in vars_:
         if '_before' in c:
             record.execute(c.pop('_before'))
         o2, r2, ev2, t2 = record.execute(c)
         rows = record.law_rows(c, r2, t2)
-        out['api'].append(record.abstract(c, o2, r2, t2, 0))
+        if with_api:
+            out['api'].append(record.abstract(c, o2, r2, t2, 0))
         for e in ev2:
             if e.get('ev') == 'split':
                 out['splits'].append({'n': e['n'], 'k': e['k'], 'sizes': e['sizes']})
@@ -141,8 +145,25 @@ def run(tier, seed):
             base['_src'] = '%s#%d.%d' % (cfg, gi, s)
             nj = njv if tier == 'thorough' else rng.sample(njv, min(4, len(njv)))
             groups.append((len(groups) + 1, base, variants(rng, base, nj)))
-    runner.log('E4: %d groups (base call + n_jobs / presentation variants) from %d TLC-enumerated right tables' % (
-        len(groups), len(gens)))
+    # the split grid: right tables of n rows joined with k jobs, every (n, k) - every position of a chunk boundary,
+    # more jobs than rows, more jobs than processors
+    ncpu = os.cpu_count() or 4
+    nwide = 0
+    for n in range(1, (70 if tier == 'quick' else 130) + 1):
+        ks = list(range(2, 18)) + ([ncpu + 1, 2 * ncpu + 1] if n % 10 == 0 else [])
+        for k in sorted(set(ks)):
+            rng = random.Random('%s|e4wide|%d|%d' % (seed, n, k))
+            kind, api = APIS[(n * 5 + k) % len(APIS)]
+            rvals = [(j * 7 + n + (j // 4)) % 4 for j in range(n)]
+            base = base_case(rng, rvals, kind, api)
+            base['_src'] = 'wide:n=%d:k=%d' % (n, k)
+            base['_wide'] = 1
+            c = copy.deepcopy(base)
+            c['n_jobs'] = k
+            groups.append((len(groups) + 1, base, [('n_jobs=%d' % k, c)]))
+            nwide += 1
+    runner.log('E4: %d groups (base call + n_jobs / presentation variants) from %d TLC-enumerated right tables, '
+               '%d of them on the (rows, jobs) grid' % (len(groups), len(gens), nwide))
     outs = runner.pmap(run_group, groups)
     laws, apis, splits = [], [], []
     by_tid = {}
@@ -161,7 +182,8 @@ def run(tier, seed):
                            'n': s['n'], 'k': s['k'], 'sizes': s['sizes']})
     # another interpreter: different hash seed, process-pool backend
     rng = random.Random(seed)
-    sample = rng.sample(groups, min(len(groups), 12 if tier == 'quick' else 60))
+    narrow = [g for g in groups if not g[1].get('_wide')]
+    sample = rng.sample(narrow, min(len(narrow), 12 if tier == 'quick' else 60))
     sub_cases = []
     for g in sample:
         c = copy.deepcopy(g[1])
@@ -188,7 +210,7 @@ def run(tier, seed):
     # every sampled call once more in a FRESH interpreter (nothing was called before it there) and compared with the
     # result obtained in a long-lived worker process after hundreds of other calls
     import multiprocessing as mp
-    fresh = rng.sample(groups, min(len(groups), 160 if tier == 'quick' else 800))
+    fresh = rng.sample(narrow, min(len(narrow), 160 if tier == 'quick' else 800))
     with mp.get_context('spawn').Pool(config.NCPU, maxtasksperchild=1) as pool:
         fresh_rows = pool.map(_rows_only, [g[1] for g in fresh], chunksize=1)
     worn_rows = runner.pmap(_rows_only, [g[1] for g in fresh])
@@ -226,8 +248,9 @@ def run(tier, seed):
                           'TraceLaws EQ: %d, TraceAPI: %d, split events: %d' % (len(laws), len(apis), len(splits))],
             'rule': 'every right table of up to %s rows over {missing, empty, 1 token, 2 tokens} (TLC) x rotating entry '
                     'points x n_jobs in {-20,-2,-1,0,2..5,rows+2} (threading backend) + presentation variants + '
+                    'the grid of %d (rows 1..%d, jobs 2..17 and beyond the processor count) combinations + '
                     '%d calls in another interpreter (other PYTHONHASHSEED, process-pool backend)' % (
-                        '5' if tier == 'quick' else '6', len(sub_cases))}
+                        '5' if tier == 'quick' else '6', nwide, 70 if tier == 'quick' else 130, len(sub_cases))}
 
 
 def _rows_only(case):
